@@ -148,12 +148,80 @@ def run_case(case, stats):
             if d1.is_doomed and not d1.messages:
                 raise Violation("doomed-without-message", f"doomed verdict (executor) has no message; {ctx}", half="executor")
             stats.c["exact:doomed" if is_empty else "exact:not-doomed"] += 1
+        # a user-defined RowFilter (extension point) that may remove every row: "keep rows whose value in a column is a
+        # multiple of 3"; it is not empty-invariant, so a truthful executor must be consulted about the relation it heads
+        if truth.det and not state["ambiguous"] and root.columns and root.engine is not env.sql:
+            t = sorted(root.columns, key=lambda c: c.qualified_name)[0]
+            flt = keep_multiples_filter()(t, 3)
+            try:
+                top = flt.apply(root)
+            except Exception as e:
+                raise Violation("custom-filter-raised", f"applying a user-defined RowFilter raised {type(e).__name__}: {e}; {ctx}", exc=e)
+            kept = [r for r in truth.rows if r[t] % 3 == 0]
+
+            def executor2(rel):
+                if rel is top:
+                    return len(kept) > 0
+                return executor(rel)
+
+            try:
+                d2 = Diagnostics.run(top, executor2)
+            except Exception as e:
+                raise Violation("diagnostics-raised", f"with executor, user-defined RowFilter on top: {type(e).__name__}: {e}; {ctx}", exc=e)
+            if not state["ambiguous"]:
+                if d2.is_doomed != (not kept):
+                    raise Violation(
+                        "doomed-but-has-rows" if d2.is_doomed else "not-doomed-but-empty",
+                        f"user-defined RowFilter (keeps rows whose {t} is a multiple of 3; may remove every row) on top: is_doomed={d2.is_doomed} with a truthful "
+                        f"executor, true rows {kept[:4]} (n={len(kept)}); messages {d2.messages}; {ctx}",
+                        half="executor-custom-filter",
+                    )
+                if d2.is_doomed and not d2.messages:
+                    raise Violation("doomed-without-message", f"doomed verdict (executor, custom filter) has no message; {ctx}", half="executor")
+                stats.c["custom-filter:" + ("doomed" if not kept else "not-doomed")] += 1
         ks = set(kinds(prog))
         if ks & {"sel", "slice", "join"} or any(l[4] == "doomed" for l in leaves):
             cls = which + "/" + ("empty" if (empty_known and is_empty) else "nonempty" if empty_known else "ambiguous")
             stats.mark_nontrivial(codec.digest(case), lambda: describe(case), cls=cls)
     finally:
         env.close()
+
+
+_KEEP = None
+
+
+def keep_multiples_filter():
+    global _KEEP
+    if _KEEP is None:
+        import dataclasses
+
+        from lsst.daf.relation import ColumnTag, RowFilter
+
+        @dataclasses.dataclass(frozen=True)
+        class KeepMultiples(RowFilter):
+            tag: ColumnTag
+            k: int
+
+            def __str__(self):
+                return f"multiples[{self.tag}%{self.k}]"
+
+            @property
+            def columns_required(self):
+                return frozenset({self.tag})
+
+            @property
+            def is_order_dependent(self):
+                return False
+
+            @property
+            def is_empty_invariant(self):
+                return False
+
+            def applied_max_rows(self, target):
+                return target.max_rows
+
+        _KEEP = KeepMultiples
+    return _KEEP
 
 
 def describe(case):
